@@ -5,6 +5,7 @@ package harness
 import (
 	"bytes"
 	"fmt"
+	"io"
 	"testing"
 
 	"github.com/gcash/bchd/chaincfg/chainhash"
@@ -83,6 +84,11 @@ func buildC16Tx(s c16TxSpec, idx int) *wire.MsgTx {
 	return tx
 }
 
+// plainReader hides every method of the wrapped reader except Read.
+type plainReader struct{ r io.Reader }
+
+func (p plainReader) Read(b []byte) (int, error) { return p.r.Read(b) }
+
 func serializeBlock(m *wire.MsgBlock) ([]byte, error) {
 	var buf bytes.Buffer
 	if err := m.Serialize(&buf); err != nil {
@@ -129,8 +135,17 @@ func evalC16(c c16Case, o *Obs) error {
 			return fmt.Errorf("NewBlockFromBytes of a valid block failed: %v", err)
 		}
 	case 2:
-		if b, err = bchutil.NewBlockFromReader(bytes.NewReader(raw)); err != nil {
+		// a plain reader (no ReadByte, no Peek) that carries this block twice, back to back
+		pr := plainReader{bytes.NewReader(append(append([]byte{}, raw...), raw...))}
+		if b, err = bchutil.NewBlockFromReader(pr); err != nil {
 			return fmt.Errorf("NewBlockFromReader of a valid block failed: %v", err)
+		}
+		b2, err := bchutil.NewBlockFromReader(pr)
+		if err != nil {
+			return fmt.Errorf("a second NewBlockFromReader on the same stream (two blocks back to back) failed: %v", err)
+		}
+		if got, _ := b2.Bytes(); !bytes.Equal(got, raw) {
+			return fmt.Errorf("the second block read from the same stream differs from the first")
 		}
 	case 3:
 		b = bchutil.NewBlockFromBlockAndBytes(msg, append([]byte{}, raw...))
@@ -356,6 +371,9 @@ func genC16(t *rapid.T) c16Case {
 		n = 0
 	case 1:
 		n = rapid.IntRange(10, 40).Draw(t, "nbig")
+		if rapid.IntRange(0, 3).Draw(t, "huge") == 0 { // transaction count needs a 3-byte CompactSize
+			n = rapid.IntRange(250, 260).Draw(t, "nhuge")
+		}
 	default:
 		n = rapid.IntRange(1, 8).Draw(t, "n")
 	}
@@ -443,8 +461,13 @@ func evalC16Tx(c c16TxCase, o *Obs) error {
 			return fmt.Errorf("NewTxFromBytes of a valid transaction (+%d trailing bytes) failed: %v", len(c.Trail), err)
 		}
 	default:
-		if t, err = bchutil.NewTxFromReader(bytes.NewReader(append(append([]byte{}, raw...), c.Trail...))); err != nil {
-			return fmt.Errorf("NewTxFromReader of a valid transaction (+%d trailing bytes) failed: %v", len(c.Trail), err)
+		pr := plainReader{bytes.NewReader(append(append(append([]byte{}, raw...), raw...), c.Trail...))}
+		if t, err = bchutil.NewTxFromReader(pr); err != nil {
+			return fmt.Errorf("NewTxFromReader of a valid transaction failed: %v", err)
+		}
+		t2, err := bchutil.NewTxFromReader(pr)
+		if err != nil || *t2.Hash() != m.TxHash() {
+			return fmt.Errorf("a second NewTxFromReader on the same stream (two transactions back to back) fails or reads another transaction: %v", err)
 		}
 	}
 	if len(c.Trail) > 0 && c.Ctor != 0 {
